@@ -11,13 +11,19 @@ K0 == CHOOSE k \in Keys : TRUE
 P0 == CHOOSE p \in Procs : \A q \in Procs : p <= q
 SymOneCallPlans == {f \in OneCallPlans : f[P0][1] = K0}
 SymTwoCallPlans == {f \in TwoCallPlans : f[P0][1] = K0}
+(* sequential call sequences of up to 4 Gets per process (binding G) *)
+SeqPlans == [Procs -> UNION {[1..n -> Keys] : n \in 1..4}]
+(* which keys get the zero value of V from the constructor *)
+NoZeroKeys == {{}}
+AnyZeroKeys == SUBSET Keys
+SomeZeroKeys == {{}, {K0}}
 (* one or two Gets *)
 MixedPlans == [Procs -> {<<k>> : k \in Keys} \cup {<<k1, k2>> : k1 \in Keys, k2 \in Keys}]
 
 (* Refinement: the fine-grained Get implements the abstract once-map. *)
 AbsStore == [k \in Keys |-> IF conval[k] = {} THEN 0 ELSE CHOOSE v \in conval[k] : TRUE]
 AbsPend  == [p \in Procs |-> IF InGet(p) THEN Key(p) ELSE "-"]
-Abs == INSTANCE OnceAbs WITH AProcs <- Procs, AKeys <- Keys, NoKey <- "-", AVals <- 1..16,
+Abs == INSTANCE OnceAbs WITH AProcs <- Procs, AKeys <- Keys, NoKey <- "-", AVals <- 0..16,
                              store <- AbsStore, pend <- AbsPend, cons <- ncons
 AbsSpec == Abs!ASpec
 =============================================================================
